@@ -182,7 +182,7 @@ Fixpoint cexpr (e : expr) (st : cstate) {struct e} : cres (cstate * code) :=
           else COk (st1, cr ++ ca ++ [I KSetVariadicLen n; I KCallNative id])
       | FUser id res =>
           do '(st0, cr) <- copt_with cexpr recv st ;;
-          do '(st1, ca) <- cexprs_with cexpr args st0 ;;
+          do '(st1, ca, _) <- cargs_with cexpr 0 args 0 st0 ;;
           let k := match res with TVoid => KVoidCall | TInt => KIntCall | _ => KCall end in
           COk (st1, cr ++ ca ++ [I k id])
       | FUnresolved => CErr ECantCompile
